@@ -115,6 +115,20 @@ def run1(params, chooser):
         take('after-commit')
     sqlalchemy.event.listen(Session, 'before_commit', before_commit)
     sqlalchemy.event.listen(Session, 'after_commit', after_commit)
+    from sqlalchemy.engine import Engine
+    last = [None]
+
+    def after_execute(conn, cursor, statement, parameters, context, executemany):
+        # statements outside a session transaction (the schema creation at start-up: every
+        # CREATE TABLE / CREATE INDEX is committed by itself) change the files too; only
+        # states that differ from the previous kill point are kept
+        snap = snapshot(wd)
+        key = h64(tuple(sorted((k, h64(v)) for k, v in snap.items())))
+        if key != last[0]:
+            last[0] = key
+            if statement.lstrip()[:6].upper() in ('CREATE', 'PRAGMA'):
+                snaps.append(('after-statement:' + ' '.join(statement.split()[:3]), 0, snap))
+    sqlalchemy.event.listen(Engine, 'after_cursor_execute', after_execute)
 
     def setup(a):
         a.builder.factory['PipelineSeries'].concurrency = params['conc']
@@ -143,6 +157,7 @@ def run1(params, chooser):
         fn.FakeConn.deliver = orig_deliver
         sqlalchemy.event.remove(Session, 'before_commit', before_commit)
         sqlalchemy.event.remove(Session, 'after_commit', after_commit)
+        sqlalchemy.event.remove(Engine, 'after_cursor_execute', after_execute)
         warcharn.cleanup(wd)
     return out, snaps, ro
 
@@ -198,6 +213,15 @@ def judge_resume(params, ro, full_requests, snap_rows, reqs_before, out2, full_r
     for u, (st, tc) in snap_rows.items():
         if st == 'done' and req2.get(u, 0) > allowed.get(u, 0):
             return 'URL done before the kill was requested again after resume: %s' % u
+    # the resumed run is a crawl in its own right: it requests no URL more often than an
+    # uninterrupted crawl does (a table that lost its uniqueness re-queues every
+    # rediscovered URL)
+    full_count = Counter(full_requests)
+    for u in sorted(req2):
+        if full_count.get(u) and req2[u] > full_count[u]:
+            return ('the resumed run requests %s %d times (an uninterrupted crawl: %d)'
+                    % (u, req2[u], full_count[u]))
+    rows_seen = Counter(rows2)  # rows2 is keyed by URL: duplicates show in the raw table
     full_set = set(full_requests)
     for u in sorted(req2):
         if u not in full_set:
